@@ -17,3 +17,38 @@ Definition transmission_constraint (amplification_limited congestion_limited fas
 Definition cubic_constraint (amp : bool) (s : cstate) : constraint :=
   transmission_constraint amp (Cubic.congestion_limited s)
     (match kind s with Recovery _ true => true | _ => false end).
+
+(* ---- property clause "one packet when entering recovery" as an executable judgement on an
+   implementation's CUBIC rows (only the trait observable requires_fast_retransmission() is used):
+   the allowance may turn on only at a loss / ECN event, and at most once per recovery period,
+   i.e. not again until a packet sent after that event is acknowledged or persistent congestion
+   is declared. ---- *)
+Record gj := mkG { gprev : bool; ggrant : option N }.
+
+Fixpoint gate_from (w idx : nat) (g : gj) (ops : list op) (rows : list Z) : bool :=
+  match ops with
+  | [] => true
+  | o :: t =>
+      let cur := negb (nth idx rows 0 =? 0)%Z in
+      let rise := cur && negb (gprev g) in
+      let ok := if rise
+                then match o with
+                     | Lost _ _ _ | Ecn _ => match ggrant g with None => true | Some _ => false end
+                     | _ => false
+                     end
+                else true in
+      let grant' := match o with
+                    | Lost _ true now => if rise then Some now else None
+                    | Lost _ false now | Ecn now => if rise then Some now else ggrant g
+                    | Ack _ st _ => match ggrant g with Some T => if T <? st then None else Some T | None => None end
+                    | _ => ggrant g
+                    end in
+      ok && gate_from w idx {| gprev := cur; ggrant := grant' |} t (skipn w rows)
+  end.
+
+(* CUBIC rows are 9 wide, requires_fast_retransmission() is column 5; the first row is the new controller *)
+Definition cubic_gate_judge (case rows : list Z) : bool :=
+  match case with
+  | [] => true
+  | _ :: t => gate_from 9 5 {| gprev := false; ggrant := None |} (decode 0 t) (skipn 9 rows)
+  end.
